@@ -1,4 +1,5 @@
 import FxVerif.Proofs.C03View
+import FxVerif.Proofs.C03Prog
 
 /-!
 # C03 — the executed event is field-for-field the event the quorum voted for
@@ -651,6 +652,73 @@ example : (AnyClaim.bc wCall).wellFormed = true ∧ (AnyClaim.bc { wCall with Ch
     ∧ (AnyClaim.bc { wCall with ChainName := "tron".toList }).wellFormed = false := by decide +kernel
 /-- the view is not constant: another memo is another view -/
 example : (AnyClaim.bc wCall).handlerView ≠ (AnyClaim.bc { wCall with Memo := memoSendCallTo }).handlerView := by decide +kernel
+
+/-! ## a handler's WRITES are the voted ones: `AddBridgeTokenExecuted`, interpreted from its regenerated statement list
+
+`addBridgeTokenProg` (Gen/C03.lean) is the body of `Keeper.AddBridgeTokenExecuted`, statement by statement; `runProg`
+(Model/C03Prog.lean) gives it its meaning on a bridge-denom store.  This is the handler whose stored effect depends on a
+voted field in a non-obvious way: `Symbol` matters only through `== "FX"` (the contract becomes the bridge token of the
+native coin), `Decimals` only then, `TokenContract` and the keeper's module name through `NewBridgeDenom`. -/
+
+/-- the translator recognised every statement, and both store helpers use one key function -/
+theorem bridgeToken_prog_modelled :
+    addBridgeTokenProg.all HLine.modelled = true ∧ addBridgeTokenStoreKey = "GetBridgeDenomKey" := by decide
+
+/-- the program mentions no claim field outside the handler view (`TokenContract`, `Symbol`; `Decimals`) -/
+theorem bridgeToken_prog_fields :
+    (progStrFields addBridgeTokenProg).all (["TokenContract", "Symbol"].contains ·) = true
+    ∧ (progNatFields addBridgeTokenProg).all (["Decimals"].contains ·) = true := by decide
+
+/-- for every module name and every store: what the handler writes (or that it fails) is determined by the handler view —
+so by `handler_view_is_voted` it is the same for the claim objects of all voters of one attestation -/
+theorem bridgeToken_handler_of_view (m : Str) (st : List (Str × Str)) (c₁ c₂ : MsgBridgeTokenClaim)
+    (h : c₁.handlerView = c₂.handlerView) : runAddBridgeToken m st c₁ = runAddBridgeToken m st c₂ := by
+  simp only [MsgBridgeTokenClaim.handlerView, List.cons.injEq, HEntry.mk.injEq, HLeaf.str.injEq, HLeaf.nat.injEq,
+    true_and, and_true] at h
+  obtain ⟨hd, hs, ht⟩ := h
+  apply runProg_congr
+  · intro f hf
+    have := List.all_eq_true.1 bridgeToken_prog_fields.1 f hf
+    simp only [List.contains_cons, List.contains_nil, Bool.or_false, Bool.or_eq_true, beq_iff_eq] at this
+    rcases this with rfl | rfl <;> simp [MsgBridgeTokenClaim.fieldEnv, hs, ht]
+  · intro f hf
+    have := List.all_eq_true.1 bridgeToken_prog_fields.2 f hf
+    simp only [List.contains_cons, List.contains_nil, Bool.or_false, beq_iff_eq] at this
+    subst this
+    simp [MsgBridgeTokenClaim.fieldEnv, hd]
+
+/-- the writes of the handlers the model interprets (so far: `AddBridgeTokenExecuted`), for a claim of any type -/
+def immediateEffect (m : Str) (st : List (Str × Str)) : AnyClaim → Option HRes
+  | .bt c => some (runAddBridgeToken m st c)
+  | _ => none
+
+/-- over all histories: on every keeper and every store, executing the claim object the handler was given writes exactly
+what executing the claim of ANY tallied vote would have written -/
+theorem executed_writes_are_voted {η : Type} [DecidableEq η] (H : Str → η) (le : η → η → Bool) (ops : List Op)
+    (wf : ∀ c ∈ Op.claims ops, c.wellFormed = true)
+    (collisionFree : ∀ c₁ ∈ Op.claims ops, ∀ c₂ ∈ Op.claims ops, H c₁.path = H c₂.path → c₁.path = c₂.path)
+    (m : Str) (st : List (Str × Str)) :
+    ∀ e ∈ (run (fun c => H c.path) le {} ops).executed, ∀ v ∈ e.tallied,
+      immediateEffect m st v.2 = immediateEffect m st e.claim := by
+  intro e he v hv
+  have hview := executed_view_is_voted H le ops wf collisionFree e he v hv
+  have heff := executed_is_voted H le ops (fun c hc => valid_of_wellFormed (wf c hc)) collisionFree e he v hv
+  cases hc : e.claim <;> cases hw : v.2 <;> rw [hc, hw] at hview heff <;>
+    simp only [AnyClaim.effect, reduceCtorEq] at heff <;> simp only [immediateEffect]
+  rename_i a b
+  exact congrArg some (bridgeToken_handler_of_view m st b a hview)
+
+/-- `Symbol == "FX"` with 18 decimals: the contract becomes the bridge token of the native coin (two entries) -/
+example : runAddBridgeToken "eth".toList [] wToken
+    = .ok [("eth".toList ++ ethA, "FX".toList), ("FX".toList, "eth".toList ++ ethA)] := by decide +kernel
+/-- any other symbol: an ordinary bridge token -/
+example : runAddBridgeToken "eth".toList [] { wToken with Name := "A".toList, Symbol := "FX/FX".toList }
+    = .ok [("eth".toList ++ ethA, "eth".toList ++ ethA)] := by decide +kernel
+/-- already registered / `FX` with other decimals: an error, nothing is written -/
+example : runAddBridgeToken "eth".toList [("eth".toList ++ ethA, "x".toList)] wToken = .err := by decide +kernel
+example : runAddBridgeToken "eth".toList [] { wToken with Decimals := 6 } = .err := by decide +kernel
+/-- the module name matters (it is the keeper's, not the claim's `ChainName`) -/
+example : runAddBridgeToken "bsc".toList [] wToken ≠ runAddBridgeToken "eth".toList [] wToken := by decide +kernel
 
 /-! ## the store keys (round 3): `GetAttestationKey` / `GetPendingExecuteClaimKey` byte layouts, regenerated from key.go
 
